@@ -83,6 +83,14 @@ def gen(rng, n):
         # not produce an unbounded trace (the simulator's own bound is 200_000 steps per run, i.e. millions of
         # records); variant 3 multiplies the steps, so it gets the tightest bound
         cap = 4_000_000
+        if d["TWIN"] == 3 and rng.chance(2, 3):
+            # keep most variant-3 workloads below the pacer's burst capacity (10 datagrams): the comparison then
+            # covers the whole run instead of stopping when the Pacing timer is first armed
+            nstreams = max(1, d.get("NCONNS", 1) * (d["NBIDI"] + d["NUNI"]))
+            d["STREAM_BYTES"] = min(d["STREAM_BYTES"], 8000 // nstreams)
+            d["ECHO_BYTES"] = min(d.get("ECHO_BYTES", 0), 1000)
+            d.pop("PACING_BPS", None)
+            d["NDGRAM"] = min(d.get("NDGRAM", 0), 3)
         if d["TWIN"] == 3:
             cap = 2_200_000 if d.get("ZERO_RTT") else 1_200_000
         d["MAX_TIME"] = min(d.get("MAX_TIME", cap), cap)
@@ -160,6 +168,12 @@ def stats(cases, outs):
         ht += sum(1 for r in o if r[0] == 7)
         zomb += sum(1 for r in o if r[0] == 12)
     st["twin_variants"] = tw
+    st["drained_events"] = sum(1 for o in outs for r in o if r[0] == 5 and r[4] == 1)
+    v3 = [(c, o) for c, o in zip(cases, outs) if S.get(c, "TWIN", 0) == 3]
+    st["variant3_comparison_cut_short"] = sum(1 for c, o in v3 if paced_at(o) is not None)
+    st["variant3_compared_records"] = sum(
+        sum(1 for r in halves(o)[0] if r[0] in V3_TAGS and r[1] < (paced_at(o) if paced_at(o) is not None else 1 << 62))
+        for c, o in v3)
     st["handle_timeout_calls"] = ht
     st["zombie_records"] = zomb
     st["controllers"] = {}
@@ -209,7 +223,8 @@ def ref_single(tr):
 
 
 def paced_at(tr):
-    ts = [r[1] for r in tr if r[0] == 8 and r[4 + 24] != -1]
+    """first instant with the Pacing timer armed, or with a drive ending on an already-due deadline"""
+    ts = [r[1] for r in tr if (r[0] == 8 and r[4 + 24] != -1) or (r[0] == 6 and 0 <= r[4] <= r[1])]
     return min(ts) if ts else None
 
 
